@@ -249,6 +249,24 @@ def self_attr(e: ast.AST | None, attr: str | None = None, base: str = "self") ->
 NOVALUE = object()
 
 
+_SENTINELS: dict[tuple[str, str], "Abs"] = {}
+
+
+def module_sentinel(mod, e: ast.AST | None) -> object:
+    """A module-level `NAME = object()` is a private marker compared by identity: one abstract object per name
+    (so that `found is not _ABSENT` evaluates when both sides are known)."""
+    from .astutil import unwrap as _unwrap
+
+    if isinstance(e, ast.Name) and e.id in mod.assigns:
+        v = _unwrap(mod.assigns[e.id])
+        if isinstance(v, ast.Call) and isinstance(v.func, ast.Name) and v.func.id == "object" and not v.args and not v.keywords:
+            key = (mod.name, e.id)
+            if key not in _SENTINELS:
+                _SENTINELS[key] = Abs("object", tag=f"sentinel:{e.id}")
+            return _SENTINELS[key]
+    return NOVALUE
+
+
 def eval_expr(e: ast.AST, env: Callable[[ast.AST], object]) -> object:
     """Tiny evaluator for guard expressions.  `env(sub)` returns a concrete value for a recognised
     sub-expression or NOVALUE.  Anything it cannot evaluate yields NOVALUE (both branches kept)."""
@@ -259,6 +277,8 @@ def eval_expr(e: ast.AST, env: Callable[[ast.AST], object]) -> object:
         return e.value
     if isinstance(e, ast.NamedExpr):
         return eval_expr(e.value, env)
+    if isinstance(e, ast.Call) and isinstance(e.func, ast.Name) and e.func.id == "cast" and len(e.args) == 2 and not e.keywords:
+        return eval_expr(e.args[1], env)  # typing.cast is the identity at run time
     if isinstance(e, ast.UnaryOp) and isinstance(e.op, ast.Not):
         v = eval_expr(e.operand, env)
         return NOVALUE if v is NOVALUE else (not v)
@@ -536,6 +556,14 @@ def eval_expr(e: ast.AST, env: Callable[[ast.AST], object]) -> object:  # noqa: 
         if isinstance(val, (list, tuple, dict, str)):
             return len(val)
         return NOVALUE
+    if isinstance(e, ast.Call) and isinstance(e.func, ast.Name) and e.func.id == "bool" and len(e.args) == 1 and not e.keywords:
+        val = eval_expr(e.args[0], env)
+        if val is NOVALUE:
+            return NOVALUE
+        try:
+            return bool(val)
+        except UndecidedTruth:
+            return NOVALUE
     if isinstance(e, ast.IfExp):
         t = eval_expr(e.test, env)
         if t is NOVALUE:
@@ -649,6 +677,15 @@ class Scenario:
         self._at = node
         try:
             return eval_expr(e, self.env)
+        finally:
+            self._at = prev
+
+    def reduced_at(self, node: Node, e: ast.AST | None) -> ast.AST | None:
+        """`e` with the conditional expressions / `or`-defaults this scenario decides at `node` stripped."""
+        prev = getattr(self, "_at", None)
+        self._at = node
+        try:
+            return reduce_ifexp(e, self.env)
         finally:
             self._at = prev
 
@@ -833,9 +870,98 @@ def reduce_ifexp(e: ast.AST | None, env: Callable[[ast.AST], object]) -> ast.AST
     from .astutil import unwrap
 
     e = unwrap(e) if e is not None else None
-    while isinstance(e, ast.IfExp):
-        t = eval_expr(e.test, env)
-        if t is NOVALUE:
+    while True:
+        if isinstance(e, ast.IfExp):
+            t = eval_expr(e.test, env)
+            if t is NOVALUE:
+                break
+            e = unwrap(e.body if t else e.orelse)
+        elif isinstance(e, ast.BoolOp) and len(e.values) == 2:
+            # `given or <default>` / `given and <use>` with a decided first operand
+            t = eval_expr(e.values[0], env)
+            if t is NOVALUE:
+                break
+            try:
+                truthy = bool(t)
+            except UndecidedTruth:
+                break
+            e = unwrap(e.values[0] if truthy == isinstance(e.op, ast.Or) else e.values[1])
+        else:
             break
-        e = unwrap(e.body if t else e.orelse)
     return e
+
+
+def added_optional_params_env(fi: FunctionInfo, established: set[str]) -> Callable[[ast.AST], object]:
+    """Situation "the caller uses the established interface": parameters of `fi` that are not among its `established`
+    ones (the signature the property was stated for) and have a constant default evaluate to that default.  A new
+    optional argument does not change what the property says about existing calls."""
+    a = fi.node.args
+    vals: dict[str, object] = {}
+    pd = a.posonlyargs + a.args
+    for prm, dv in zip(pd[len(pd) - len(a.defaults):], a.defaults):
+        if prm.arg not in established and isinstance(dv, ast.Constant):
+            vals[prm.arg] = dv.value
+    for prm, dv in zip(a.kwonlyargs, a.kw_defaults):
+        if dv is not None and prm.arg not in established and isinstance(dv, ast.Constant):
+            vals[prm.arg] = dv.value
+    rebound = {n.id for n in fi.own_nodes() if isinstance(n, ast.Name) and isinstance(n.ctx, ast.Store)}
+
+    def env(e: ast.AST) -> object:
+        if isinstance(e, ast.Name) and isinstance(e.ctx, ast.Load) and e.id in vals and e.id not in rebound:
+            return vals[e.id]
+        return NOVALUE
+
+    return env
+
+
+def constructed_attr_values(an, cls_path: str, attr: str) -> list[tuple[ast.Call, list[ast.AST]]]:
+    """What `__init__` of the class stores into self.<attr> at each constructor call site of the package: the
+    parameters are bound to the constant arguments / defaults of the site, branches and conditional expressions
+    they decide are resolved.  [(call site, [stored expressions reachable in that situation])]."""
+    from .astutil import Deps, unwrap
+    from .loader import dotted
+
+    prog = an.prog
+    ci = prog.cls(cls_path)
+    init = ci.method("__init__")
+    if init is None:
+        return []
+    g = an.cfg(init)
+    d = Deps(prog, init)
+    a = init.node.args
+    pos = [x.arg for x in a.posonlyargs + a.args][1:]
+    defaults: dict[str, ast.AST] = {}
+    pd = a.posonlyargs + a.args
+    for prm, dv in zip(pd[len(pd) - len(a.defaults):], a.defaults):
+        defaults[prm.arg] = dv
+    for prm, dv in zip(a.kwonlyargs, a.kw_defaults):
+        if dv is not None:
+            defaults[prm.arg] = dv
+    stores = [n for n in g.nodes if n.kind == "stmt" and isinstance(n.ast, (ast.Assign, ast.AnnAssign)) and getattr(n.ast, "value", None) is not None and any(dotted(t) == f"self.{attr}" for t in (n.ast.targets if isinstance(n.ast, ast.Assign) else [n.ast.target]))]
+    out: list[tuple[ast.Call, list[ast.AST]]] = []
+    for fi in prog.scan_functions():
+        for c in fi.own_nodes():
+            if not (isinstance(c, ast.Call) and an.callee(fi, c) in (ci.qualname, ci.qualname + ".__init__")):
+                continue
+            bound: dict[str, ast.AST] = dict(defaults)
+            opaque = False
+            for i, arg in enumerate(c.args):
+                if isinstance(arg, ast.Starred) or i >= len(pos):
+                    opaque = True
+                    break
+                bound[pos[i]] = arg
+            for k in c.keywords:
+                if k.arg is None:
+                    opaque = True
+                else:
+                    bound[k.arg] = k.value
+            params = {} if opaque else {name: unwrap(v).value for name, v in bound.items() if isinstance(unwrap(v), ast.Constant)}
+            unknown = set(init.param_names()) - set(params)
+
+            def env(e: ast.AST, unknown=unknown):
+                return NOVALUE
+
+            sc = Scenario(g, d, env, params=params)
+            vals = [sc.reduced_at(st, st.ast.value) for st in stores if st.id in sc.reach]  # type: ignore[union-attr]
+            out.append((c, vals))
+    return out
